@@ -53,6 +53,16 @@ class Boom(Exception):
 BOOM = Boom("body raises")
 
 
+class EmptyProblems(Exception):
+    """A container-style exception that is falsy when it has no entries."""
+
+    def __len__(self):
+        return 0
+
+
+FALSY_BOOM = EmptyProblems("no entries")
+
+
 def build_source(params, method, body):
     """params: list of [name, kind, default_or_None] already normalised."""
     parts = []
@@ -86,6 +96,8 @@ def build_source(params, method, body):
         src += "    return _SENTINEL\n"
     elif body == "locals":
         src += "    return %s\n" % local_list
+    elif body == "raise_falsy":
+        src += "    raise _FALSY_BOOM\n"
     else:
         src += "    raise _BOOM\n"
     return src
@@ -133,7 +145,7 @@ def check(case):
         params = [p for p in params if p[0] != "self"]
     body = case["body"]
     ran = []
-    glob = {"_ran": ran, "_SENTINEL": SENTINEL, "_BOOM": BOOM, "__name__": "genmod18"}
+    glob = {"_ran": ran, "_SENTINEL": SENTINEL, "_BOOM": BOOM, "_FALSY_BOOM": FALSY_BOOM, "__name__": "genmod18"}
     src = build_source(params, method, body)
     if method:
         src = "class C(object):\n" + "".join("    " + line + "\n" for line in src.splitlines()) + "\n"
@@ -188,6 +200,18 @@ def check(case):
             decorated = log_call(plain)
         elif deco["form"] == "direct":
             decorated = log_call(plain, **kwargs_deco)
+        elif case.get("shared_decorator") and "include_args" not in kwargs_deco:
+            # one configured decorator object applied to several functions
+            def other_function(zz=0):
+                return zz
+
+            configured = log_call(**kwargs_deco)
+            if case["shared_decorator"] == 1:
+                configured(other_function)
+                decorated = configured(plain)
+            else:
+                decorated = configured(plain)
+                configured(other_function)
         else:
             decorated = log_call(**kwargs_deco)(plain)
     except ValueError as e:
@@ -284,7 +308,11 @@ def check(case):
             require(not extra, "argument-log-extra", lambda: "start message has unexpected fields %r (expected %r); %s" % (extra, sorted(expected), desc))
             require(end.get("action_type") == expected_type, "end-message", "end message type %r" % (end.get("action_type"),))
             if ref_exc is not None:
-                require(end.get("action_status") == "failed" and end.get("exception") == "pbt.props.c18.Boom", "end-message", lambda: "end message %r for a raising body" % (_show(end),))
+                require(
+                    end.get("action_status") == "failed" and end.get("exception") == "pbt.props.c18." + type(ref_exc).__name__,
+                    "end-message",
+                    lambda: "end message %r for a raising body" % (_show(end),),
+                )
                 require("result" not in end, "result-on-failure", "failed end carries a result")
             else:
                 require(end.get("action_status") == "succeeded", "end-message", lambda: "end message %r" % (_show(end),))
@@ -313,6 +341,8 @@ def _show(m):
 
 def classify(case, info):
     labels = ["method" if case["method"] else "function", "body:" + case["body"], "form:" + case["deco"]["form"]]
+    if case.get("shared_decorator") and case["deco"]["form"] not in ("bare", "direct") and case["deco"].get("include_args") is None:
+        labels.append("one-decorator-object-applied-to-two-functions")
     if case.get("inner_decorator"):
         labels.append("under-another-functools.wraps-decorator")
         if case["inner_decorator"] == 2:
@@ -356,10 +386,11 @@ def strategy():
         st.dictionaries(st.sampled_from(NAMES + ["zz"]), values(), max_size=3),
     )
     return st.builds(
-        lambda inner, method, body, deco, params, calls: {"inner_decorator": int(inner), "method": method, "body": body, "deco": deco, "params": params, "calls": calls},
+        lambda shared, inner, method, body, deco, params, calls: {"shared_decorator": shared, "inner_decorator": int(inner), "method": method, "body": body, "deco": deco, "params": params, "calls": calls},
+        st.sampled_from([0, 0, 1, 2]),
         st.sampled_from([0, 0, 0, 0, 1, 2]),
         st.booleans(),
-        st.sampled_from(["sentinel", "locals", "locals", "raise"]),
+        st.sampled_from(["sentinel", "locals", "locals", "raise", "raise_falsy"]),
         deco,
         st.lists(param, max_size=5),
         st.lists(call, min_size=1, max_size=4),
